@@ -468,10 +468,17 @@ def gen_bg(rng: random.Random, d: dict, focus: dict) -> list[dict]:
             continue
         if kind in ('snv', 'mnv') and set(span) & custom_span:
             continue      # a background substitution under a custom record changes its REF: outside the quantifier
+        before = set(taken)
         taken |= wide
         rec['id'] = f'bg{len(recs)}'
         rec['kind'] = kind
         recs.append(rec)
+        if kind in ('ins', 'del') and rng.random() < focus.get('bg_adjacent', 0.0) and len(recs) < focus.get('max_bg', 5):
+            # a substitution of the very next base after the indel (two separate, compatible records at adjacent positions)
+            q = span[-1] if kind == 'ins' else span[-1] + 1
+            if q <= n - 2 and not exon_at(exons, q) and q not in pam_pos and q not in custom_span and not {q, q + 1} & before:
+                recs.append({'pos': q, 'ref': U[q - 1], 'alts': [rng.choice([c for c in NT if c != U[q - 1]])], 'id': f'bg{len(recs)}', 'kind': 'snv'})
+                taken |= {q, q + 1}
     recs.sort(key=lambda r: r['pos'])
     return recs
 
